@@ -126,6 +126,15 @@ def project(fig, path, names, all_axes=False):
     P["annotationfields"] = (nums[0] if nums and all(n == nums[0] for n in nums) else (tuple(nums) if nums else None))
     labels = [l.get_label() for l in ax0.get_lines()]
     P["obsleg"] = tuple(lb for lb in labels if not lb.startswith("_") and lb not in names and lb != "ideal")
+    # colour scale (map view): label of the colour bars, limits of the coloured point sets
+    cbars = [ax for ax in fig.axes if ax.get_label() == "<colorbar>"]
+    labs = [ax.get_ylabel() for ax in cbars]
+    P["clabel"] = None if not labs else (labs[0] if all(x == labs[0] for x in labs) else ("differs", tuple(labs)))
+    clims = [tuple(round(float(v), 6) for v in col.get_clim()) for ax in fig.axes if ax.get_label() != "<colorbar>"
+             for col in ax.collections if col.get_array() is not None]
+    P["clim"] = None if not clims else (clims[0] if all(x == clims[0] for x in clims) else ("differs", tuple(clims)))
+    cmaps = [col.get_cmap().name for ax in fig.axes if ax.get_label() != "<colorbar>" for col in ax.collections if col.get_array() is not None]
+    P["cmap"] = None if not cmaps else (cmaps[0] if all(x == cmaps[0] for x in cmaps) else ("differs", tuple(cmaps)))
     P["format"] = file_format(path)
     P["pixels"] = png_size(path)
     P["dpi"] = getattr(fig, "_verif_saved_dpi", None)
@@ -144,9 +153,9 @@ def owned_ok(prop, expected, P, P0):
     """does the projected figure P carry the value the option must give to `prop`? returns None or a message"""
     got = P.get(prop)
     try:
-        if prop in ("title", "xlabel", "ylabel", "xscale", "yscale", "perfectline", "annotations", "margins", "grid", "crop"):
+        if prop in ("title", "xlabel", "ylabel", "xscale", "yscale", "perfectline", "annotations", "margins", "grid", "crop", "clabel", "cmap"):
             return None if got == expected else "%s: expected %r, figure has %r" % (prop, expected, got)
-        if prop in ("xlim", "ylim"):
+        if prop in ("xlim", "ylim", "clim"):
             e = tuple(_nums(expected))
             if got is not None and len(got) == 2 and got[0] == "differs":
                 return "%s: expected %r on every sub-axes, the sub-axes have %r" % (prop, e, got[1])
